@@ -1,279 +1,193 @@
-(* Proofs about the hand-written r2q model (Model/C04_R2q.v): for every R in SO(3) on which r2q does not take its
-   degenerate exit, q2r (r2q R) = R -- all three "largest diagonal" branches and both signs; the result is a unit
-   quaternion with non-negative scalar part.  Fixed file (depends on nothing generated). *)
+(* Proofs about the hand-written r2q model (Model/C04_R2q.v, the code after /repo 1cdf860):
+   for EVERY R in SO(3):  q2r (r2q R) = R,  |r2q R| = 1,  scalar part >= 0.
+   - trace > 0: v = k/(4 qs), s = sqrt(1 - v.v)  (lemma r2q_pos_core);
+   - trace <= 0: the three "largest diagonal" branches x both signs (Model/C04_R2qCore.v), the scalar part k.v/(4 v.v) equals
+     qs because the skew part of q2r(s,v) is 4 s v; the eye() exit is not reachable for a rotation (|kv|^2 >= 4).
+   Fixed file (depends on nothing generated). *)
 From Coq Require Import Reals ZArith Lra Nsatz Psatz Bool.
-From SM Require Import Base.Ops Base.Lin Base.RInst Base.RLin Model.C04_R2q.
+From SM Require Import Base.Ops Base.Lin Base.RInst Base.RLin Model.C04_R2q Model.C04_R2qCore.
 Open Scope R_scope.
-
-Lemma SO3_trace_bounds a00 a01 a02 a10 a11 a12 a20 a21 a22 :
-  SO3 ((a00,a01,a02),(a10,a11,a12),(a20,a21,a22)) -> 0 <= a00 + a11 + a22 + 1 /\ a00 + a11 + a22 <= 3.
-Proof.
-  intros H.
-  assert (S : (a21 - a12)*(a21 - a12) + (a02 - a20)*(a02 - a20) + (a10 - a01)*(a10 - a01) = (a00 + a11 + a22 + 1) * (3 - (a00 + a11 + a22))).
-  { so3_facts H. nsatz. }
-  unfold SO3 in H. destruct H as (H1&H2&H3&_).
-  assert (D0 : a00 <= 1) by nra. assert (D1 : a11 <= 1) by nra. assert (D2 : a22 <= 1) by nra.
-  clear H1 H2 H3. split; [|lra].
-  destruct (Req_dec (a00 + a11 + a22) 3) as [E|E]; [lra|].
-  assert (P : 0 < 3 - (a00 + a11 + a22)) by lra.
-  pose proof (Rle_0_sqr (a21 - a12)) as Q1. pose proof (Rle_0_sqr (a02 - a20)) as Q2. pose proof (Rle_0_sqr (a10 - a01)) as Q3.
-  unfold Rsqr in *.
-  assert (Q : 0 <= (a00 + a11 + a22 + 1) * (3 - (a00 + a11 + a22))) by lra.
-  clear S Q1 Q2 Q3. generalize dependent (a00 + a11 + a22). intros. nra.
-Qed.
-
-Lemma q2r_scaled (s f kx ky kz a g : R) : f*f = a -> s*f = g ->
-  q2r_ref Rops (s, f*kx, f*ky, f*kz) =
-  ((1 - 2*a*(ky*ky + kz*kz), 2*(a*kx*ky - g*kz), 2*(a*kx*kz + g*ky)),
-   (2*(a*kx*ky + g*kz), 1 - 2*a*(kx*kx + kz*kz), 2*(a*ky*kz - g*kx)),
-   (2*(a*kx*kz - g*ky), 2*(a*ky*kz + g*kx), 1 - 2*a*(kx*kx + ky*ky))).
-Proof. intros Ha Hg. subst a g. lin_simpl. tuple_eq ltac:(ring). Qed.
-
-Lemma diag_div D X a : D <> 0 -> 2*D - X = 2*D*a -> 1 - 2*(1/(4*D))*X = a.
-Proof. intros HD H. apply (Rmult_eq_reg_l (2*D)); [|lra]. rewrite <- H. field. lra. Qed.
-Lemma offm_div D P Q G Z a : D <> 0 -> P*Q - G*Z = 2*D*a -> 2*(1/(4*D)*P*Q - G/(4*D)*Z) = a.
-Proof. intros HD H. apply (Rmult_eq_reg_l (2*D)); [|lra]. rewrite <- H. field. lra. Qed.
-Lemma offp_div D P Q G Z a : D <> 0 -> P*Q + G*Z = 2*D*a -> 2*(1/(4*D)*P*Q + G/(4*D)*Z) = a.
-Proof. intros HD H. apply (Rmult_eq_reg_l (2*D)); [|lra]. rewrite <- H. field. lra. Qed.
-Lemma sq_eq_nonneg x y : 0 <= x -> 0 <= y -> x*x = y*y -> x = y.
-Proof. intros. nra. Qed.
-
-(* One lemma per "largest diagonal" branch; e = +1 is the `add` case, e = -1 the subtract case.
-   With the hidden quaternion (s,x,y,z) of R: branch 0 has k = 4(s + e x)(x,y,z), D = 4(s + e x)^2. *)
-
-Lemma r2q_branch0_core a00 a01 a02 a10 a11 a12 a20 a21 a22 (e kx ky kz qs f : R) :
-  SO3 ((a00,a01,a02),(a10,a11,a12),(a20,a21,a22)) -> (e = 1 \/ e = -1) -> 0 <= e * (a21 - a12) ->
-  kx = (a21 - a12) + e*(a00 - a11 - a22 + 1) -> ky = (a02 - a20) + e*(a10 + a01) -> kz = (a10 - a01) + e*(a20 + a02) ->
-  0 < kx*kx + ky*ky + kz*kz ->
-  qs = sqrt (a00 + a11 + a22 + 1) / 2 -> f = sqrt (1 - qs*qs) / sqrt (kx*kx + ky*ky + kz*kz) ->
-  q2r_ref Rops (qs, f*kx, f*ky, f*kz) = ((a00,a01,a02),(a10,a11,a12),(a20,a21,a22))
-  /\ qs*qs + (f*kx)*(f*kx) + (f*ky)*(f*ky) + (f*kz)*(f*kz) = 1 /\ 0 <= qs.
-Proof.
-  intros H He Hs Ekx Eky Ekz HN Eqs Ef.
-  set (t1 := a00 + a11 + a22 + 1) in *. set (N := kx*kx + ky*ky + kz*kz) in *.
-  destruct (SO3_trace_bounds _ _ _ _ _ _ _ _ _ H) as [Ht1 Ht3]. fold t1 in Ht1.
-  assert (Hqs : qs*qs = t1/4). { rewrite Eqs. pose proof (sqrt_sqrt t1 Ht1). nra. }
-  assert (Hqs0 : 0 <= qs). { rewrite Eqs. pose proof (sqrt_pos t1). lra. }
-  pose (D := t1 + 2*e*(a21 - a12) + (a00 - a11 - a22 + 1)).
-  assert (EE : e*e = 1) by (destruct He; subst e; ring).
-  assert (F1 : N = (4 - t1) * D). { unfold N, D, t1. rewrite Ekx, Eky, Ekz. clear - H EE. so3_facts H. nsatz. }
-  assert (F2 : t1 * (a00 - a11 - a22 + 1) = (a21 - a12)*(a21 - a12)). { unfold t1. clear - H. so3_facts H. nsatz. }
-  assert (H4 : 0 <= 4 - t1) by (unfold t1; lra).
-  assert (HD : 0 < D /\ 0 < 4 - t1).
-  { destruct (Req_dec (4 - t1) 0) as [E|E]. rewrite E in F1. lra.
-    assert (0 < 4 - t1) by lra. split; [|assumption]. rewrite F1 in HN. nra. }
-  destruct HD as [HD H4'].
-  assert (Hsn : sqrt N * sqrt N = N) by (apply sqrt_sqrt; lra).
-  assert (Hsn0 : 0 < sqrt N) by (apply sqrt_lt_R0; assumption).
-  assert (H1q : 0 <= 1 - qs*qs) by lra.
-  assert (Hff : f*f = 1/(4*D)).
-  { rewrite Ef. pose proof (sqrt_sqrt _ H1q) as E1.
-    replace (sqrt (1 - qs*qs) / sqrt N * (sqrt (1 - qs*qs) / sqrt N)) with ((sqrt (1 - qs*qs) * sqrt (1 - qs*qs)) / (sqrt N * sqrt N)) by (field; lra).
-    rewrite E1, Hsn, Hqs, F1. field. lra. }
-  assert (Hf0 : 0 <= f). { rewrite Ef. pose proof (sqrt_pos (1 - qs*qs)). apply Rmult_le_pos; [assumption|]. left. apply Rinv_0_lt_compat. assumption. }
-  assert (Hg : qs*f = (t1 + e*(a21 - a12))/(4*D)).
-  { apply sq_eq_nonneg.
-    - apply Rmult_le_pos; assumption.
-    - apply Rmult_le_pos; [lra|]. left. apply Rinv_0_lt_compat. lra.
-    - replace (qs*f*(qs*f)) with ((qs*qs)*(f*f)) by ring. rewrite Hqs, Hff.
-      assert (G : (t1 + e*(a21 - a12))*(t1 + e*(a21 - a12)) = t1 * D). { unfold D. clear - EE F2. clearbody t1. nsatz. }
-      replace ((t1 + e * (a21 - a12)) / (4 * D) * ((t1 + e * (a21 - a12)) / (4 * D))) with (((t1 + e*(a21 - a12))*(t1 + e*(a21 - a12))) / (16*D*D)) by (field; lra).
-      rewrite G. field. lra. }
-  split; [|split; [|exact Hqs0]].
-  2:{ replace (qs*qs + f*kx*(f*kx) + f*ky*(f*ky) + f*kz*(f*kz)) with (qs*qs + (f*f)*N) by (unfold N; ring).
-      rewrite Hff, Hqs, F1. field. lra. }
-  rewrite (q2r_scaled qs f kx ky kz _ _ Hff Hg).
-  clear Hg Hff Hf0 H1q Hsn0 Hsn Hqs Hqs0 HN Ht1 Ht3 H4 H4' F1 F2 Hs EE Eqs Ef.
-  subst kx ky kz. unfold D, t1 in *. clear t1 N D qs f.
-  destruct He; subst e; so3_facts H;
-  tuple_eq ltac:(first [apply diag_div | apply offm_div | apply offp_div]; [lra | nsatz]).
-Qed.
-
-Lemma r2q_branch1_core a00 a01 a02 a10 a11 a12 a20 a21 a22 (e kx ky kz qs f : R) :
-  SO3 ((a00,a01,a02),(a10,a11,a12),(a20,a21,a22)) -> (e = 1 \/ e = -1) -> 0 <= e * (a02 - a20) ->
-  kx = (a21 - a12) + e*(a10 + a01) -> ky = (a02 - a20) + e*(a11 - a00 - a22 + 1) -> kz = (a10 - a01) + e*(a21 + a12) ->
-  0 < kx*kx + ky*ky + kz*kz ->
-  qs = sqrt (a00 + a11 + a22 + 1) / 2 -> f = sqrt (1 - qs*qs) / sqrt (kx*kx + ky*ky + kz*kz) ->
-  q2r_ref Rops (qs, f*kx, f*ky, f*kz) = ((a00,a01,a02),(a10,a11,a12),(a20,a21,a22))
-  /\ qs*qs + (f*kx)*(f*kx) + (f*ky)*(f*ky) + (f*kz)*(f*kz) = 1 /\ 0 <= qs.
-Proof.
-  intros H He Hs Ekx Eky Ekz HN Eqs Ef.
-  set (t1 := a00 + a11 + a22 + 1) in *. set (N := kx*kx + ky*ky + kz*kz) in *.
-  destruct (SO3_trace_bounds _ _ _ _ _ _ _ _ _ H) as [Ht1 Ht3]. fold t1 in Ht1.
-  assert (Hqs : qs*qs = t1/4). { rewrite Eqs. pose proof (sqrt_sqrt t1 Ht1). nra. }
-  assert (Hqs0 : 0 <= qs). { rewrite Eqs. pose proof (sqrt_pos t1). lra. }
-  pose (D := t1 + 2*e*(a02 - a20) + (a11 - a00 - a22 + 1)).
-  assert (EE : e*e = 1) by (destruct He; subst e; ring).
-  assert (F1 : N = (4 - t1) * D). { unfold N, D, t1. rewrite Ekx, Eky, Ekz. clear - H EE. so3_facts H. nsatz. }
-  assert (F2 : t1 * (a11 - a00 - a22 + 1) = (a02 - a20)*(a02 - a20)). { unfold t1. clear - H. so3_facts H. nsatz. }
-  assert (H4 : 0 <= 4 - t1) by (unfold t1; lra).
-  assert (HD : 0 < D /\ 0 < 4 - t1).
-  { destruct (Req_dec (4 - t1) 0) as [E|E]. rewrite E in F1. lra.
-    assert (0 < 4 - t1) by lra. split; [|assumption]. rewrite F1 in HN. nra. }
-  destruct HD as [HD H4'].
-  assert (Hsn : sqrt N * sqrt N = N) by (apply sqrt_sqrt; lra).
-  assert (Hsn0 : 0 < sqrt N) by (apply sqrt_lt_R0; assumption).
-  assert (H1q : 0 <= 1 - qs*qs) by lra.
-  assert (Hff : f*f = 1/(4*D)).
-  { rewrite Ef. pose proof (sqrt_sqrt _ H1q) as E1.
-    replace (sqrt (1 - qs*qs) / sqrt N * (sqrt (1 - qs*qs) / sqrt N)) with ((sqrt (1 - qs*qs) * sqrt (1 - qs*qs)) / (sqrt N * sqrt N)) by (field; lra).
-    rewrite E1, Hsn, Hqs, F1. field. lra. }
-  assert (Hf0 : 0 <= f). { rewrite Ef. pose proof (sqrt_pos (1 - qs*qs)). apply Rmult_le_pos; [assumption|]. left. apply Rinv_0_lt_compat. assumption. }
-  assert (Hg : qs*f = (t1 + e*(a02 - a20))/(4*D)).
-  { apply sq_eq_nonneg.
-    - apply Rmult_le_pos; assumption.
-    - apply Rmult_le_pos; [lra|]. left. apply Rinv_0_lt_compat. lra.
-    - replace (qs*f*(qs*f)) with ((qs*qs)*(f*f)) by ring. rewrite Hqs, Hff.
-      assert (G : (t1 + e*(a02 - a20))*(t1 + e*(a02 - a20)) = t1 * D). { unfold D. clear - EE F2. clearbody t1. nsatz. }
-      replace ((t1 + e * (a02 - a20)) / (4 * D) * ((t1 + e * (a02 - a20)) / (4 * D))) with (((t1 + e*(a02 - a20))*(t1 + e*(a02 - a20))) / (16*D*D)) by (field; lra).
-      rewrite G. field. lra. }
-  split; [|split; [|exact Hqs0]].
-  2:{ replace (qs*qs + f*kx*(f*kx) + f*ky*(f*ky) + f*kz*(f*kz)) with (qs*qs + (f*f)*N) by (unfold N; ring).
-      rewrite Hff, Hqs, F1. field. lra. }
-  rewrite (q2r_scaled qs f kx ky kz _ _ Hff Hg).
-  clear Hg Hff Hf0 H1q Hsn0 Hsn Hqs Hqs0 HN Ht1 Ht3 H4 H4' F1 F2 Hs EE Eqs Ef.
-  subst kx ky kz. unfold D, t1 in *. clear t1 N D qs f.
-  destruct He; subst e; so3_facts H;
-  tuple_eq ltac:(first [apply diag_div | apply offm_div | apply offp_div]; [lra | nsatz]).
-Qed.
-
-Lemma r2q_branch2_core a00 a01 a02 a10 a11 a12 a20 a21 a22 (e kx ky kz qs f : R) :
-  SO3 ((a00,a01,a02),(a10,a11,a12),(a20,a21,a22)) -> (e = 1 \/ e = -1) -> 0 <= e * (a10 - a01) ->
-  kx = (a21 - a12) + e*(a20 + a02) -> ky = (a02 - a20) + e*(a21 + a12) -> kz = (a10 - a01) + e*(a22 - a00 - a11 + 1) ->
-  0 < kx*kx + ky*ky + kz*kz ->
-  qs = sqrt (a00 + a11 + a22 + 1) / 2 -> f = sqrt (1 - qs*qs) / sqrt (kx*kx + ky*ky + kz*kz) ->
-  q2r_ref Rops (qs, f*kx, f*ky, f*kz) = ((a00,a01,a02),(a10,a11,a12),(a20,a21,a22))
-  /\ qs*qs + (f*kx)*(f*kx) + (f*ky)*(f*ky) + (f*kz)*(f*kz) = 1 /\ 0 <= qs.
-Proof.
-  intros H He Hs Ekx Eky Ekz HN Eqs Ef.
-  set (t1 := a00 + a11 + a22 + 1) in *. set (N := kx*kx + ky*ky + kz*kz) in *.
-  destruct (SO3_trace_bounds _ _ _ _ _ _ _ _ _ H) as [Ht1 Ht3]. fold t1 in Ht1.
-  assert (Hqs : qs*qs = t1/4). { rewrite Eqs. pose proof (sqrt_sqrt t1 Ht1). nra. }
-  assert (Hqs0 : 0 <= qs). { rewrite Eqs. pose proof (sqrt_pos t1). lra. }
-  pose (D := t1 + 2*e*(a10 - a01) + (a22 - a00 - a11 + 1)).
-  assert (EE : e*e = 1) by (destruct He; subst e; ring).
-  assert (F1 : N = (4 - t1) * D). { unfold N, D, t1. rewrite Ekx, Eky, Ekz. clear - H EE. so3_facts H. nsatz. }
-  assert (F2 : t1 * (a22 - a00 - a11 + 1) = (a10 - a01)*(a10 - a01)). { unfold t1. clear - H. so3_facts H. nsatz. }
-  assert (H4 : 0 <= 4 - t1) by (unfold t1; lra).
-  assert (HD : 0 < D /\ 0 < 4 - t1).
-  { destruct (Req_dec (4 - t1) 0) as [E|E]. rewrite E in F1. lra.
-    assert (0 < 4 - t1) by lra. split; [|assumption]. rewrite F1 in HN. nra. }
-  destruct HD as [HD H4'].
-  assert (Hsn : sqrt N * sqrt N = N) by (apply sqrt_sqrt; lra).
-  assert (Hsn0 : 0 < sqrt N) by (apply sqrt_lt_R0; assumption).
-  assert (H1q : 0 <= 1 - qs*qs) by lra.
-  assert (Hff : f*f = 1/(4*D)).
-  { rewrite Ef. pose proof (sqrt_sqrt _ H1q) as E1.
-    replace (sqrt (1 - qs*qs) / sqrt N * (sqrt (1 - qs*qs) / sqrt N)) with ((sqrt (1 - qs*qs) * sqrt (1 - qs*qs)) / (sqrt N * sqrt N)) by (field; lra).
-    rewrite E1, Hsn, Hqs, F1. field. lra. }
-  assert (Hf0 : 0 <= f). { rewrite Ef. pose proof (sqrt_pos (1 - qs*qs)). apply Rmult_le_pos; [assumption|]. left. apply Rinv_0_lt_compat. assumption. }
-  assert (Hg : qs*f = (t1 + e*(a10 - a01))/(4*D)).
-  { apply sq_eq_nonneg.
-    - apply Rmult_le_pos; assumption.
-    - apply Rmult_le_pos; [lra|]. left. apply Rinv_0_lt_compat. lra.
-    - replace (qs*f*(qs*f)) with ((qs*qs)*(f*f)) by ring. rewrite Hqs, Hff.
-      assert (G : (t1 + e*(a10 - a01))*(t1 + e*(a10 - a01)) = t1 * D). { unfold D. clear - EE F2. clearbody t1. nsatz. }
-      replace ((t1 + e * (a10 - a01)) / (4 * D) * ((t1 + e * (a10 - a01)) / (4 * D))) with (((t1 + e*(a10 - a01))*(t1 + e*(a10 - a01))) / (16*D*D)) by (field; lra).
-      rewrite G. field. lra. }
-  split; [|split; [|exact Hqs0]].
-  2:{ replace (qs*qs + f*kx*(f*kx) + f*ky*(f*ky) + f*kz*(f*kz)) with (qs*qs + (f*f)*N) by (unfold N; ring).
-      rewrite Hff, Hqs, F1. field. lra. }
-  rewrite (q2r_scaled qs f kx ky kz _ _ Hff Hg).
-  clear Hg Hff Hf0 H1q Hsn0 Hsn Hqs Hqs0 HN Ht1 Ht3 H4 H4' F1 F2 Hs EE Eqs Ef.
-  subst kx ky kz. unfold D, t1 in *. clear t1 N D qs f.
-  destruct He; subst e; so3_facts H;
-  tuple_eq ltac:(first [apply diag_div | apply offm_div | apply offp_div]; [lra | nsatz]).
-Qed.
-
-(* ---------- the model function itself ---------- *)
-Lemma sqrt_pos_arg x c : 0 < c -> ~ Rabs (sqrt x) < c -> 0 < x.
-Proof.
-  intros Hc H. destruct (Rle_or_lt x 0) as [L|L]; [|exact L].
-  exfalso. apply H. rewrite (sqrt_neg_0 x L), Rabs_R0. exact Hc.
-Qed.
 
 Lemma max0_sqrt t : 0 <= t -> sqrt (if Rltb 0 t then t else 0) = sqrt t.
 Proof. intros H. unfold Rltb. destruct (Rlt_dec 0 t); [reflexivity|]. f_equal. lra. Qed.
+Lemma max0_nonneg x : 0 <= x -> (if Rltb 0 x then x else 0) = x.
+Proof. intros H. unfold Rltb. destruct (Rlt_dec 0 x); lra. Qed.
+
+(* the skew part of q2r(s, v) is 4 s v *)
+Lemma skew_of_q2r s x y z a00 a01 a02 a10 a11 a12 a20 a21 a22 :
+  q2r_ref Rops (s, x, y, z) = ((a00,a01,a02),(a10,a11,a12),(a20,a21,a22)) ->
+  a21 - a12 = 4*s*x /\ a02 - a20 = 4*s*y /\ a10 - a01 = 4*s*z.
+Proof. lin_simpl. intros E. injection E; intros; subst. repeat split; ring. Qed.
+
+(* ---------- trace > 0 ---------- *)
+Lemma r2q_pos_core a00 a01 a02 a10 a11 a12 a20 a21 a22 (qs d vx vy vz : R) :
+  SO3 ((a00,a01,a02),(a10,a11,a12),(a20,a21,a22)) -> 0 < a00 + a11 + a22 ->
+  qs = sqrt (a00 + a11 + a22 + 1) / 2 -> d = 4 * qs ->
+  vx = (a21 - a12) / d -> vy = (a02 - a20) / d -> vz = (a10 - a01) / d ->
+  let s := sqrt (if Rltb 0 (1 - (vx*vx + vy*vy + vz*vz)) then 1 - (vx*vx + vy*vy + vz*vz) else 0) in
+  q2r_ref Rops (s, vx, vy, vz) = ((a00,a01,a02),(a10,a11,a12),(a20,a21,a22))
+  /\ s*s + vx*vx + vy*vy + vz*vz = 1 /\ 0 <= s.
+Proof.
+  intros H Htr Eqs Ed Ex Ey Ez s.
+  set (t1 := a00 + a11 + a22 + 1) in *.
+  assert (Ht1 : 1 < t1) by (unfold t1; lra).
+  assert (Hqs : qs*qs = t1/4). { rewrite Eqs. pose proof (sqrt_sqrt t1 ltac:(lra)). nra. }
+  assert (Hqs0 : 0 < qs). { rewrite Eqs. pose proof (sqrt_lt_R0 t1 ltac:(lra)). lra. }
+  assert (S : (a21 - a12)*(a21 - a12) + (a02 - a20)*(a02 - a20) + (a10 - a01)*(a10 - a01) = t1 * (4 - t1)).
+  { unfold t1. clear - H. so3_facts H. nsatz. }
+  assert (Hd : d <> 0) by lra.
+  assert (Hvv : vx*vx + vy*vy + vz*vz = (4 - t1)/4).
+  { rewrite Ex, Ey, Ez.
+    replace ((a21 - a12) / d * ((a21 - a12) / d) + (a02 - a20) / d * ((a02 - a20) / d) + (a10 - a01) / d * ((a10 - a01) / d))
+      with (((a21 - a12)*(a21 - a12) + (a02 - a20)*(a02 - a20) + (a10 - a01)*(a10 - a01)) / (d*d)) by (field; exact Hd).
+    rewrite S, Ed. replace (4 * qs * (4 * qs)) with (16 * (qs*qs)) by ring. rewrite Hqs. field. lra. }
+  assert (Hs : s = qs).
+  { unfold s. rewrite Hvv. rewrite max0_sqrt by lra. replace (1 - (4 - t1)/4) with (qs*qs) by (rewrite Hqs; field).
+    apply sqrt_square. lra. }
+  rewrite Hs. split; [|split; [rewrite Hqs; lra | lra]].
+  set (f := 1/d).
+  replace vx with (f * (a21 - a12)) by (rewrite Ex; unfold f; field; exact Hd).
+  replace vy with (f * (a02 - a20)) by (rewrite Ey; unfold f; field; exact Hd).
+  replace vz with (f * (a10 - a01)) by (rewrite Ez; unfold f; field; exact Hd).
+  assert (Hff : f*f = 1/(4*t1)).
+  { unfold f. rewrite Ed. replace (1 / (4 * qs) * (1 / (4 * qs))) with (1 / (16 * (qs*qs))) by (field; lra). rewrite Hqs. field. lra. }
+  assert (Hg : qs*f = t1/(4*t1)). { unfold f. rewrite Ed. field. split; lra. }
+  rewrite (q2r_scaled qs f _ _ _ _ _ Hff Hg).
+  clear Hg Hff Hs Hvv Hd S Hqs0 Hqs Ex Ey Ez Ed Eqs Htr. unfold t1 in *. clear f s t1 vx vy vz d qs.
+  so3_facts H.
+  tuple_eq ltac:(first [apply diag_div | apply offm_div | apply offp_div]; [lra | nsatz]).
+Qed.
+
+(* ---------- trace <= 0: the eye() exit cannot be taken by a rotation ---------- *)
+Lemma r2q_kv_lower a00 a01 a02 a10 a11 a12 a20 a21 a22 (e ks dg kx ky kz : R) :
+  SO3 ((a00,a01,a02),(a10,a11,a12),(a20,a21,a22)) -> a00 + a11 + a22 <= 0 -> (e = 1 \/ e = -1) -> 0 <= e * ks ->
+  (* the identity N = (3 - tr) (tr + 1 + 2 e ks + dg) of the branch, and dg = 1 + 2 a_ii - tr with a_ii the largest diagonal entry *)
+  kx*kx + ky*ky + kz*kz = (3 - (a00 + a11 + a22)) * ((a00 + a11 + a22 + 1) + 2*e*ks + dg) ->
+  (exists aii, dg = 1 + 2*aii - (a00 + a11 + a22) /\ a00 <= aii /\ a11 <= aii /\ a22 <= aii) ->
+  4 <= kx*kx + ky*ky + kz*kz.
+Proof.
+  intros H Htr He Hs F1 (aii & Edg & M0 & M1 & M2).
+  destruct (SO3_trace_bounds _ _ _ _ _ _ _ _ _ H) as [Ht1 _].
+  rewrite F1, Edg. clear F1 Edg H He.
+  assert (3 * aii >= a00 + a11 + a22) by lra.
+  generalize dependent (a00 + a11 + a22). intros tr **.
+  assert (A : 3 <= 3 - tr) by lra. assert (B : 4/3 <= tr + 1 + 2 * e * ks + (1 + 2 * aii - tr)) by lra.
+  nra.
+Qed.
+
+Lemma N_identity0 a00 a01 a02 a10 a11 a12 a20 a21 a22 e :
+  SO3 ((a00,a01,a02),(a10,a11,a12),(a20,a21,a22)) -> e*e = 1 ->
+  let kx := (a21 - a12) + e*(a00 - a11 - a22 + 1) in let ky := (a02 - a20) + e*(a10 + a01) in let kz := (a10 - a01) + e*(a20 + a02) in
+  kx*kx + ky*ky + kz*kz = (3 - (a00 + a11 + a22)) * ((a00 + a11 + a22 + 1) + 2*e*(a21 - a12) + (a00 - a11 - a22 + 1)).
+Proof. intros H EE kx ky kz. unfold kx, ky, kz. so3_facts H. nsatz. Qed.
+Lemma N_identity1 a00 a01 a02 a10 a11 a12 a20 a21 a22 e :
+  SO3 ((a00,a01,a02),(a10,a11,a12),(a20,a21,a22)) -> e*e = 1 ->
+  let kx := (a21 - a12) + e*(a10 + a01) in let ky := (a02 - a20) + e*(a11 - a00 - a22 + 1) in let kz := (a10 - a01) + e*(a21 + a12) in
+  kx*kx + ky*ky + kz*kz = (3 - (a00 + a11 + a22)) * ((a00 + a11 + a22 + 1) + 2*e*(a02 - a20) + (a11 - a00 - a22 + 1)).
+Proof. intros H EE kx ky kz. unfold kx, ky, kz. so3_facts H. nsatz. Qed.
+Lemma N_identity2 a00 a01 a02 a10 a11 a12 a20 a21 a22 e :
+  SO3 ((a00,a01,a02),(a10,a11,a12),(a20,a21,a22)) -> e*e = 1 ->
+  let kx := (a21 - a12) + e*(a20 + a02) in let ky := (a02 - a20) + e*(a21 + a12) in let kz := (a10 - a01) + e*(a22 - a00 - a11 + 1) in
+  kx*kx + ky*ky + kz*kz = (3 - (a00 + a11 + a22)) * ((a00 + a11 + a22 + 1) + 2*e*(a10 - a01) + (a22 - a00 - a11 + 1)).
+Proof. intros H EE kx ky kz. unfold kx, ky, kz. so3_facts H. nsatz. Qed.
+
+(* ---------- the model function itself ---------- *)
+Lemma nonneg_case_scalar (qs kx ky kz vx vy vz : R) :
+  0 <= qs -> qs*qs <= /4 -> qs*qs + vx*vx + vy*vy + vz*vz = 1 ->
+  kx = 4*qs*vx -> ky = 4*qs*vy -> kz = 4*qs*vz ->
+  (if Rltb 0 ((kx*vx + ky*vy + kz*vz) / (4 * (vx*vx + vy*vy + vz*vz))) then (kx*vx + ky*vy + kz*vz) / (4 * (vx*vx + vy*vy + vz*vz)) else 0) = qs.
+Proof.
+  intros H0 Hq U -> -> ->.
+  assert (V : 3/4 <= vx*vx + vy*vy + vz*vz) by lra.
+  replace ((4 * qs * vx * vx + 4 * qs * vy * vy + 4 * qs * vz * vz) / (4 * (vx * vx + vy * vy + vz * vz))) with qs by (field; lra).
+  apply max0_nonneg. exact H0.
+Qed.
+
+(* trace <= 0, one branch: given the branch core (q2r (qs, f kv) = A, unit, qs >= 0) and |kv|^2 >= 4, the model's result is (qs, f kv) *)
+Lemma r2q_nonpos_finish a00 a01 a02 a10 a11 a12 a20 a21 a22 (kx ky kz qs : R) :
+  let A : M33 R := ((a00,a01,a02),(a10,a11,a12),(a20,a21,a22)) in
+  let N := kx*kx + ky*ky + kz*kz in let f := sqrt (1 - qs*qs) / sqrt N in
+  a00 + a11 + a22 <= 0 -> 0 <= a00 + a11 + a22 + 1 -> qs = sqrt (a00 + a11 + a22 + 1) / 2 -> 4 <= N ->
+  (q2r_ref Rops (qs, f*kx, f*ky, f*kz) = A /\ qs*qs + (f*kx)*(f*kx) + (f*ky)*(f*ky) + (f*kz)*(f*kz) = 1 /\ 0 <= qs) ->
+  let q := (if Rltb (Rabs (sqrt N)) (100 * / 4503599627370496) then qone Rops
+            else ((if Rltb 0 (((a21 - a12) * (f*kx) + (a02 - a20) * (f*ky) + (a10 - a01) * (f*kz)) / (4 * ((f*kx)*(f*kx) + (f*ky)*(f*ky) + (f*kz)*(f*kz))))
+                   then ((a21 - a12) * (f*kx) + (a02 - a20) * (f*ky) + (a10 - a01) * (f*kz)) / (4 * ((f*kx)*(f*kx) + (f*ky)*(f*ky) + (f*kz)*(f*kz))) else 0),
+                  f*kx, f*ky, f*kz)) in
+  q2r_ref Rops q = A /\ qnormsq Rops q = 1 /\ 0 <= fst (fst (fst q)).
+Proof.
+  intros A N f Htr Ht1 Eqs HN (E & U & Q0) q.
+  assert (ND : Rltb (Rabs (sqrt N)) (100 * / 4503599627370496) = false).
+  { apply Rltb_false. assert (2 <= sqrt N). { rewrite <- (sqrt_square 2) by lra. apply sqrt_le_1_alt. lra. }
+    rewrite Rabs_right by lra. lra. }
+  assert (Hq : qs*qs <= /4). { rewrite Eqs. pose proof (sqrt_sqrt _ Ht1). nra. }
+  destruct (skew_of_q2r _ _ _ _ _ _ _ _ _ _ _ _ _ E) as (K1 & K2 & K3).
+  unfold q. rewrite ND.
+  rewrite (nonneg_case_scalar qs _ _ _ (f*kx) (f*ky) (f*kz) Q0 Hq); try assumption; try lra.
+  split; [exact E|]. unfold qnormsq, dot4. cbn [add mul Rops fst]. split; [lra | exact Q0].
+Qed.
+Ltac r2q_branch_tac e core NI ks dg aii :=
+  match goal with H : SO3 _, Htr : _ + _ + _ <= 0, Ht1 : 0 <= _, Eqs : _ = sqrt _ / 2,
+                  Ex : _ = ?kx, Ey : _ = ?ky, Ez : _ = ?kz |- _ =>
+    let HN4 := fresh "HN4" in
+    assert (HN4 : 4 <= kx*kx + ky*ky + kz*kz);
+    [ apply (r2q_kv_lower _ _ _ _ _ _ _ _ _ e ks dg kx ky kz H Htr);
+      [ first [left; reflexivity | right; reflexivity] | lra
+      | rewrite <- (NI _ _ _ _ _ _ _ _ _ e H ltac:(ring)); rewrite <- Ex, <- Ey, <- Ez; ring
+      | exists aii; repeat split; lra ]
+    | apply (r2q_nonpos_finish _ _ _ _ _ _ _ _ _ kx ky kz _ Htr Ht1 Eqs HN4);
+      eapply (core _ _ _ _ _ _ _ _ _ e); try exact H; try exact Eqs; try reflexivity;
+      try solve [first [left; reflexivity | right; reflexivity]]; try lra; try (rewrite <- ?Ex, <- ?Ey, <- ?Ez; ring) ]
+  end.
 
 Lemma r2q_roundtrip_entries a00 a01 a02 a10 a11 a12 a20 a21 a22 :
   let A : M33 R := ((a00,a01,a02),(a10,a11,a12),(a20,a21,a22)) in
-  SO3 A -> r2q_degenerate Rops (IZR 100) A = false ->
+  SO3 A ->
   q2r_ref Rops (r2q_100 Rops A) = A /\ qnormsq Rops (r2q_100 Rops A) = 1 /\ 0 <= fst (fst (fst (r2q_100 Rops A))).
 Proof.
-  intros A H Hd. unfold r2q_100, r2q. cbn [of_Z Rops]. rewrite Hd.
+  intros A H. unfold r2q_100, r2q. cbn [of_Z Rops].
   destruct (SO3_trace_bounds _ _ _ _ _ _ _ _ _ H) as [Ht1 _].
-  unfold r2q_degenerate in Hd. cbn [ltb abs_ mul eps Rops] in Hd. apply Rltb_false in Hd.
-  unfold norm3, normsq3 in *. cbn [sqrt_ Rops] in *.
-  destruct (r2q_kv Rops A) as [[kx ky] kz] eqn:Ekv.
-  assert (HN : 0 < kx*kx + ky*ky + kz*kz).
-  { apply (sqrt_pos_arg _ (100 * / 4503599627370496)); [lra|]. exact Hd. }
   assert (Eqs : r2q_s Rops A = sqrt (a00 + a11 + a22 + 1) / 2).
   { unfold r2q_s, A. lin_simpl. rewrite max0_sqrt by exact Ht1. f_equal. }
-  unfold qnormsq, dot4, dot3 in *. cbn [add sub mul div one zero Rops fst] in *.
-  unfold r2q_kv, r2q_add, r2q_branch, A in Ekv. cbn [leb add sub mul one zero Rops] in Ekv.
-  destruct (Rleb a11 a00 && Rleb a22 a00) eqn:B0; [|destruct (Rleb a22 a11) eqn:B1].
-  - destruct (Rleb 0 (a21 - a12)) eqn:S; injection Ekv as <- <- <-;
-    [apply Rleb_true in S | apply Rleb_false in S].
-    + eapply (r2q_branch0_core _ _ _ _ _ _ _ _ _ 1); try exact H; try exact Eqs; try reflexivity; try lra.
-    + eapply (r2q_branch0_core _ _ _ _ _ _ _ _ _ (-1)); try exact H; try exact Eqs; try reflexivity; try lra.
-  - destruct (Rleb 0 (a02 - a20)) eqn:S; injection Ekv as <- <- <-;
-    [apply Rleb_true in S | apply Rleb_false in S].
-    + eapply (r2q_branch1_core _ _ _ _ _ _ _ _ _ 1); try exact H; try exact Eqs; try reflexivity; try lra.
-    + eapply (r2q_branch1_core _ _ _ _ _ _ _ _ _ (-1)); try exact H; try exact Eqs; try reflexivity; try lra.
-  - destruct (Rleb 0 (a10 - a01)) eqn:S; injection Ekv as <- <- <-;
-    [apply Rleb_true in S | apply Rleb_false in S].
-    + eapply (r2q_branch2_core _ _ _ _ _ _ _ _ _ 1); try exact H; try exact Eqs; try reflexivity; try lra.
-    + eapply (r2q_branch2_core _ _ _ _ _ _ _ _ _ (-1)); try exact H; try exact Eqs; try reflexivity; try lra.
+  unfold r2q_k, A at 1. cbn [sub Rops].
+  destruct (r2q_trpos Rops A) eqn:TP.
+  - unfold r2q_trpos, A in TP. cbn [ltb add Rops] in TP. apply Rltb_true in TP.
+    unfold qnormsq, dot4, max0. cbn [add sub mul div one zero sqrt_ ltb Rops fst].
+    eapply r2q_pos_core; try exact H; try exact Eqs; try reflexivity; try (cbn [zero Rops] in TP; lra).
+  - unfold r2q_trpos, A in TP. cbn [ltb add Rops] in TP. apply Rltb_false in TP.
+    cbn [zero Rops] in TP. assert (Htr : a00 + a11 + a22 <= 0) by lra.
+    destruct (r2q_kv Rops A) as [[kx ky] kz] eqn:Ekv.
+    unfold r2q_degenerate. rewrite Ekv. unfold norm3, normsq3, dot3, max0.
+    cbn [ltb abs_ add sub mul div one zero sqrt_ eps Rops].
+    generalize dependent (r2q_s Rops A). intros qs Eqs.
+    unfold r2q_kv, r2q_add, r2q_branch, A in Ekv. cbn [leb add sub mul one zero Rops] in Ekv.
+    destruct (Rleb a11 a00 && Rleb a22 a00) eqn:B0; [|destruct (Rleb a22 a11) eqn:B1].
+    + apply andb_true_iff in B0. destruct B0 as [B01 B02]. apply Rleb_true in B01. apply Rleb_true in B02.
+      destruct (Rleb 0 (a21 - a12)) eqn:S; injection Ekv as Ex Ey Ez; [apply Rleb_true in S | apply Rleb_false in S].
+      * r2q_branch_tac 1 r2q_branch0_core N_identity0 (a21 - a12) (a00 - a11 - a22 + 1) a00.
+      * r2q_branch_tac (-1) r2q_branch0_core N_identity0 (a21 - a12) (a00 - a11 - a22 + 1) a00.
+    + apply andb_false_iff in B0. apply Rleb_true in B1.
+      assert (M : a00 <= a11) by (destruct B0 as [B0|B0]; apply Rleb_false in B0; lra).
+      destruct (Rleb 0 (a02 - a20)) eqn:S; injection Ekv as Ex Ey Ez; [apply Rleb_true in S | apply Rleb_false in S].
+      * r2q_branch_tac 1 r2q_branch1_core N_identity1 (a02 - a20) (a11 - a00 - a22 + 1) a11.
+      * r2q_branch_tac (-1) r2q_branch1_core N_identity1 (a02 - a20) (a11 - a00 - a22 + 1) a11.
+    + apply andb_false_iff in B0. apply Rleb_false in B1.
+      assert (M : a00 <= a22) by (destruct B0 as [B0|B0]; apply Rleb_false in B0; lra).
+      destruct (Rleb 0 (a10 - a01)) eqn:S; injection Ekv as Ex Ey Ez; [apply Rleb_true in S | apply Rleb_false in S].
+      * r2q_branch_tac 1 r2q_branch2_core N_identity2 (a10 - a01) (a22 - a00 - a11 + 1) a22.
+      * r2q_branch_tac (-1) r2q_branch2_core N_identity2 (a10 - a01) (a22 - a00 - a11 + 1) a22.
 Qed.
 
-Theorem r2q_roundtrip (A : M33 R) : SO3 A -> r2q_degenerate Rops (IZR 100) A = false ->
+Theorem r2q_roundtrip (A : M33 R) : SO3 A ->
   q2r_ref Rops (r2q_100 Rops A) = A /\ qnormsq Rops (r2q_100 Rops A) = 1 /\ 0 <= fst (fst (fst (r2q_100 Rops A))).
-Proof. intros H Hd. destruct_tuples. apply r2q_roundtrip_entries; assumption. Qed.
+Proof. intros H. destruct_tuples. apply r2q_roundtrip_entries; assumption. Qed.
 
-(* the degenerate exit returns the identity quaternion *)
-Lemma r2q_degenerate_eye (A : M33 R) : r2q_degenerate Rops (IZR 100) A = true ->
-  r2q_100 Rops A = qone Rops /\ q2r_ref Rops (r2q_100 Rops A) = I33 Rops.
+(* the eye() exit is dead code for rotations: it is only reachable when trace <= 0, where |kv|^2 >= 4 *)
+Theorem r2q_degenerate_unreachable (A : M33 R) : SO3 A -> r2q_trpos Rops A = false -> r2q_degenerate Rops (IZR 100) A = false.
 Proof.
-  intros Hd. unfold r2q_100, r2q. cbn [of_Z Rops]. rewrite Hd. split; [reflexivity|]. lin_simpl. tuple_eq ltac:(ring).
-Qed.
-
-(* a genuine rotation (about x, tan(theta/2) = 2^-60, theta ~ 1.7e-18) on which r2q takes the degenerate exit *)
-Definition tiny_c : R := (1152921504606846976*1152921504606846976 - 1) / (1152921504606846976*1152921504606846976 + 1).
-Definition tiny_s : R := (2*1152921504606846976) / (1152921504606846976*1152921504606846976 + 1).
-Definition tiny_rot : M33 R := rotx_cs Rops tiny_c tiny_s.
-
-Lemma div_lt x y z : 0 < y -> x < z*y -> x/y < z.
-Proof. intros Hy H. apply (Rmult_lt_reg_r y); [exact Hy|]. unfold Rdiv. rewrite Rmult_assoc, Rinv_l by lra. lra. Qed.
-Lemma div_gt x y z : 0 < y -> z*y < x -> z < x/y.
-Proof. intros Hy H. apply (Rmult_lt_reg_r y); [exact Hy|]. unfold Rdiv. rewrite Rmult_assoc, Rinv_l by lra. lra. Qed.
-Lemma tiny_bounds : 0 < tiny_c < 1 /\ 0 < tiny_s < /100000000000000000 /\ 1 - /100000000000000000 < tiny_c.
-Proof.
-  unfold tiny_c, tiny_s. repeat split.
-  - apply div_gt; lra.
-  - apply div_lt; lra.
-  - apply div_gt; lra.
-  - apply div_lt; lra.
-  - apply div_gt; lra.
-Qed.
-Lemma tiny_rot_SO3 : SO3 tiny_rot.
-Proof. apply SO3_rotx. unfold tiny_c, tiny_s. field. Qed.
-
-Lemma tiny_rot_degenerate : r2q_degenerate Rops (IZR 100) tiny_rot = true.
-Proof.
-  unfold r2q_degenerate. cbn [ltb abs_ mul eps Rops]. apply Rltb_true.
-  unfold tiny_rot, rotx_cs, norm3, normsq3, dot3, r2q_kv, r2q_add, r2q_branch. cbn [leb add sub mul one zero neg sqrt_ Rops].
-  pose proof tiny_bounds as (C1 & S1 & C2).
-  replace (Rleb tiny_c 1 && Rleb tiny_c 1) with true by (symmetry; apply andb_true_iff; split; apply Rleb_true; lra).
-  replace (Rleb 0 (tiny_s - - tiny_s)) with true by (symmetry; apply Rleb_true; lra).
-  set (k := tiny_s - - tiny_s + (1 - tiny_c - tiny_c + 1)).
-  replace (k * k + (0 - 0 + (0 + 0)) * (0 - 0 + (0 + 0)) + (0 - 0 + (0 + 0)) * (0 - 0 + (0 + 0))) with (k*k) by ring.
-  assert (0 <= k) by (unfold k; lra). rewrite sqrt_square by assumption. rewrite Rabs_right by lra. unfold k. lra.
-Qed.
-
-Theorem r2q_roundtrip_refuted : exists A : M33 R, SO3 A /\ q2r_ref Rops (r2q_100 Rops A) <> A.
-Proof.
-  exists tiny_rot. split; [exact tiny_rot_SO3|].
-  unfold r2q_100, r2q. cbn [of_Z Rops]. rewrite tiny_rot_degenerate.
-  unfold tiny_rot. lin_simpl. intros E.
-  pose proof tiny_bounds as (C1 & S1 & C2). injection E; intros; lra.
+  intros H TP. destruct (r2q_degenerate Rops (IZR 100) A) eqn:D; [|reflexivity]. exfalso.
+  destruct (r2q_roundtrip A H) as (E & U & _). unfold r2q_100, r2q in *. cbn [of_Z Rops] in *. rewrite TP, D in *.
+  destruct (r2q_k Rops A) as [[kx ky] kz].
+  (* the result would be the identity quaternion, so A = I, whose trace is 3 > 0 *)
+  destruct_tuples. unfold r2q_trpos in TP. cbn [ltb add Rops zero] in TP. apply Rltb_false in TP.
+  lin_simpl. injection E; intros; subst. lra.
 Qed.
